@@ -257,8 +257,40 @@ def replay_available_sequence(c):
     return bool(bad), f'observer {seat}, contract {contract.str_info()}: ' + '; '.join(bad[:3])
 
 
+def replay_two_boards(c):
+    """two real boards in one process: a lead to the first must not reach the second"""
+    from bridge_env import Hands, Pair, Player, PlayingPhaseWithHands
+    props = c.get('props') or ['C04', 'C05', 'C06']
+
+    def mk(d):
+        contract = mk_contract(d['contract'])
+        deal = filled_deal(d['deal'])
+        return contract, deal, PlayingPhaseWithHands(contract, Hands(*[{card_of(i) for i in deal[p]} for p in range(1, 5)]))
+    ca, da, A = mk(c['a'])
+    B = mk(c['b'])[2] if c['when'] == 'before' else None
+    A.play_card_by_player(card_of(c['lead']), ca.declarer.next_player)
+    if B is None:
+        cb, db, B = mk(c['b'])
+    else:
+        cb, db = mk_contract(c['b']['contract']), filled_deal(c['b']['deal'])
+    bad = []
+    lb = cb.declarer.next_player
+    if B.leader is not lb or B.active_player is not lb or B.trick_num != 1 or sum(B.taken_tricks.values()) != 0 or len(B.playing_history.history) != 0:
+        bad.append(('C04', f'second board: leader {B.leader}, turn {B.active_player}, trick {B.trick_num}, counts {dict(B.taken_tricks)}'))
+    if any(set(B.hands[p]) != {card_of(i) for i in db[p.value]} for p in Player) or B.used_cards:
+        bad.append(('C05', 'second board: hands are not its own deal / played cards not empty'))
+    got = set(B.current_available_cards_in_hand(lb))
+    if got != {card_of(i) for i in db[lb.value]}:
+        bad.append(('C04C05C06', f'second board: its leader {lb} is offered {sorted(map(str, got))} instead of the whole hand '
+                                 f'(a card was led to ANOTHER board: {card_of(c["lead"])})'))
+    bad = [m for t, m in bad if any(p in t for p in props)]
+    return bool(bad), f'two boards, second constructed {c["when"]} the lead to the first: ' + '; '.join(bad)
+
+
 def replay(c):
     import copy
+    if c.get('kind') == 'two_boards':
+        return replay_two_boards(c)
     if c.get('kind') == 'observer':
         return replay_observer(c)
     if c.get('kind') == 'replicas':
